@@ -28,7 +28,17 @@ var firstUseErr error
 func firstUseRoutines() []func() string {
 	ball := &model3d.Sphere{Center: model3d.XYZ(0.1, -0.2, 0.3), Radius: 0.9}
 	disc := &model2d.Circle{Center: model2d.XY(0.1, -0.2), Radius: 0.9}
+	// one union shared by all goroutines (deriving from a solid only reads it)
+	var shared model3d.JoinedSolid
+	for i := 0; i < 14; i++ {
+		shared = append(shared, &model3d.Sphere{Center: model3d.XYZ(float64(i%5), float64(i%3)*1.3, float64(i%4)*0.7), Radius: 0.4 + 0.05*float64(i)})
+	}
 	return []func() string{
+		func() string {
+			opt := shared.Optimize()
+			p := model3d.XYZ(2.1, 1.2, 0.8)
+			return fmt.Sprint(opt.Contains(p), shared.Contains(p), opt.Min(), opt.Max(), shared.Contains(model3d.XYZ(0, 0, 0.1)))
+		},
 		func() string { return fmt.Sprint(model3d.MarchingCubesSearch(ball, 0.2, 3).NumTriangles()) },
 		func() string { return fmt.Sprint(model2d.MarchingSquaresSearch(disc, 0.05, 3).NumSegments()) },
 		func() string {
